@@ -43,9 +43,15 @@ class Supertrend(Indicator):
             lower = self.reading(f"{self.name}_HL") - mid_atr
 
             if self.prev_exists(f"{self.name}_data.lower"):
-                if self.reading("close") > self.prev_reading(f"{self.name}_data.upper"):
+                prev_direction = self.prev_reading(f"{self.name}.direction")
+                above = self.reading("close") > self.prev_reading(f"{self.name}_data.upper")
+                below = self.reading("close") < self.prev_reading(f"{self.name}_data.lower")
+                if above and below:
+                    # stored bands have crossed: the break of the active band decides
+                    direction = -1 if prev_direction == 1 else 1
+                elif above:
                     direction = 1
-                elif self.reading("close") < self.prev_reading(f"{self.name}_data.lower"):
+                elif below:
                     direction = -1
                 else:
                     direction = self.prev_reading(f"{self.name}.direction")
